@@ -168,3 +168,258 @@ def f_tiny_placement(ids, rng, ifaces=("rec",), sizes=TINY_SIZES, sample=1.0, oo
                     calls.append({"name": "clear", "c": col})
                     out.append(scn(ids, c, calls, tag=tag))
     return out
+
+
+# ------------------------------------------------------------------------- boundary coordinates (F-huge style)
+
+I32MIN, I32MAX = -2147483648, 2147483647
+
+
+def boundary_coords(lw):
+    s = {I32MIN, -65537, -65536, -1, 0, 1, lw - 1, lw, lw + 1, 255, 256, 65534, 65535, 65536, 65536 + max(lw - 1, 0),
+         65536 + 1, I32MAX}
+    return sorted(s)
+
+
+def f_oob_streams(ids, rng, models, n_per_cfg=6, ifaces=("rec",), tag="oob-stream", stream_len=(1, 7)):
+    """draw_iter streams mixing in-bounds pixels with boundary-value coordinates, in every position"""
+    out = []
+    for (model, W, H, wins) in models:
+        for (w, h, ox, oy) in wins:
+            for (rot, mir) in ORIENTS:
+                lw, lh = lsize(w, h, rot)
+                bx, by = boundary_coords(lw), boundary_coords(lh)
+                for iface in ifaces:
+                    c = cfg(model, w, h, ox, oy, rot, mir, iface=iface, buf=rng.choice([2, 5, 64]))
+                    calls = [INIT, {"name": "clear", "c": 9}]
+                    col = 1000
+                    for _ in range(n_per_cfg):
+                        n = rng.randrange(*stream_len)
+                        px = []
+                        for i in range(n):
+                            r = rng.random()
+                            if r < 0.45:
+                                x, y = rng.randrange(lw), rng.randrange(lh)
+                            elif r < 0.6 and px:
+                                x, y = px[-1][0] + 1, px[-1][1]
+                            elif r < 0.8:
+                                x, y = rng.choice(bx), rng.randrange(lh)
+                            elif r < 0.9:
+                                x, y = rng.randrange(lw), rng.choice(by)
+                            else:
+                                x, y = rng.choice(bx), rng.choice(by)
+                            if x > I32MAX:
+                                x = I32MAX
+                            px.append([x, y, col]); col += 1
+                        calls.append({"name": "draw_iter", "px": px})
+                    out.append(scn(ids, c, calls, tag=tag))
+    return out
+
+
+def valid_rect(x, y, w, h):
+    # embedded-graphics computes top_left + size in i32 (Rectangle::bottom_right): both sums must fit
+    return x + w <= I32MAX and y + h <= I32MAX and w < 2 ** 31 and h < 2 ** 31
+
+
+def f_oob_rects(ids, rng, models, n_per_cfg=10, ifaces=("rec",), tag="oob-rect"):
+    """fill_solid / fill_contiguous with boundary-value corners and sizes (valid embedded-graphics rectangles only)"""
+    out = []
+    for (model, W, H, wins) in models:
+        for (w, h, ox, oy) in wins:
+            for (rot, mir) in ORIENTS:
+                lw, lh = lsize(w, h, rot)
+                xs = [I32MIN, -65536, -lw - 1, -lw, -2, -1, 0, 1, lw - 1, lw, lw + 1, 65535, 65536, I32MAX]
+                ys = [I32MIN, -65536, -lh - 1, -lh, -2, -1, 0, 1, lh - 1, lh, lh + 1, 65535, 65536, I32MAX]
+                ws = [0, 1, 2, lw - 1, lw, lw + 1, 2 * lw + 1, 65535, 65536, 65537, 2 ** 31 - 1]
+                hs = [0, 1, 2, lh - 1, lh, lh + 1, 2 * lh + 1, 65535, 65536, 65537, 2 ** 31 - 1]
+                for iface in ifaces:
+                    c = cfg(model, w, h, ox, oy, rot, mir, iface=iface, buf=rng.choice([3, 4, 64]))
+                    calls = [INIT, {"name": "clear", "c": 7}]
+                    col = 2000
+                    k = 0
+                    tries = 0
+                    while k < n_per_cfg and tries < 200:
+                        tries += 1
+                        x, y, rw, rh = rng.choice(xs), rng.choice(ys), max(rng.choice(ws), 0), max(rng.choice(hs), 0)
+                        if not valid_rect(x, y, rw, rh):
+                            continue
+                        # keep the number of points and the work bounded: the visible part is small on these models,
+                        # the clipped-away part costs only iterator skips
+                        if rw * rh >= 2 ** 31:
+                            continue
+                        k += 1
+                        if rng.random() < 0.5:
+                            calls.append({"name": "fill_solid", "rect": [x, y, rw, rh], "c": col}); col += 1
+                        else:
+                            area = rw * rh
+                            ln = rng.choice([0, 1, 5, area, area + 3, -1])
+                            if ln > 2 ** 31 - 2:
+                                ln = -1
+                            calls.append({"name": "fill_contiguous", "rect": [x, y, rw, rh],
+                                          "colors": {"start": col, "len": ln}})
+                            col += 97
+                    out.append(scn(ids, c, calls, tag=tag))
+    return out
+
+
+def tiny_model_list(sizes, rng=None, max_windows=None):
+    res = []
+    for (W, H) in sizes:
+        wins = list(windows(W, H))
+        if rng is not None and max_windows is not None and len(wins) > max_windows:
+            wins = rng.sample(wins, max_windows)
+        res.append(("tiny565_%dx%d" % (W, H), W, H, wins))
+    return res
+
+
+def real_model_list(rng, names=None, n_windows=2, full=False, maxside=48):
+    """built-in models with panel windows anywhere in the framebuffer; full=True adds the full-size window
+    (a 76 800-cell picture makes every validated call cost ~0.1 s, so full size is for the thorough tier)"""
+    res = []
+    for name in (names or MODELS.keys()):
+        W, H, col, ifs = MODELS[name]
+        wins = [(W, H, 0, 0)] if full else []
+        for _ in range(n_windows - (1 if full else 0)):
+            w = rng.randrange(1, min(W, maxside) + 1); h = rng.randrange(1, min(H, maxside) + 1)
+            wins.append((w, h, rng.choice([0, W - w, rng.randrange(0, W - w + 1)]), rng.choice([0, H - h, rng.randrange(0, H - h + 1)])))
+        res.append((name, W, H, wins))
+    return res
+
+
+# ------------------------------------------------------------------------- F-long: long pixel streams (batching)
+
+def long_stream(rng, lw, lh, oob=False, maxlen=400):
+    """structured random stream: runs around the capacities, stacked equal rows, shape changes, repeats, reversals"""
+    px = []
+    col = [1]
+
+    def emit(x, y):
+        px.append([x, y, col[0] % 65536]); col[0] += 1
+
+    def run_(x, y, n, step=1):
+        for i in range(n):
+            emit(x + i * step, y)
+
+    while len(px) < maxlen:
+        kind = rng.choice(["run", "run", "stack", "stack", "rev", "dup", "scatter", "col", "gap"])
+        if kind == "run":
+            n = rng.choice([1, 2, 3, 49, 50, 51, 99, 100, 101, 150]); n = min(n, lw)
+            x = rng.randrange(0, lw - n + 1); y = rng.randrange(lh)
+            run_(x, y, n)
+        elif kind == "stack":
+            n, rows = rng.choice([(25, 4), (50, 2), (10, 10), (10, 11), (33, 3), (34, 3), (20, 5), (20, 6), (1, 100), (1, 101), (2, 50), (2, 51), (7, 3)])
+            n = min(n, lw); rows = min(rows, lh)
+            x = rng.randrange(0, lw - n + 1); y = rng.randrange(0, lh - rows + 1)
+            for r in range(rows):
+                run_(x, y + r, n)
+            if rng.random() < 0.4:   # one more row of a different shape
+                run_(min(x + 1, lw - 1), min(y + rows, lh - 1), 1)
+        elif kind == "rev":
+            n = min(rng.randrange(1, 8), lw); x = rng.randrange(0, lw - n + 1); y = rng.randrange(lh)
+            run_(x + n - 1, y, n, -1)
+        elif kind == "dup":
+            n = min(rng.randrange(1, 6), lw); x = rng.randrange(0, lw - n + 1); y = rng.randrange(lh)
+            run_(x, y, n); run_(x, y, n)
+        elif kind == "scatter":
+            for _ in range(rng.randrange(1, 6)):
+                emit(rng.randrange(lw), rng.randrange(lh))
+        elif kind == "col":
+            n = min(rng.randrange(1, 8), lh); x = rng.randrange(lw); y = rng.randrange(0, lh - n + 1)
+            for i in range(n):
+                emit(x, y + i)
+        elif kind == "gap":
+            n = min(rng.randrange(2, 6), lw // 2 if lw >= 4 else 1); y = rng.randrange(lh)
+            x = rng.randrange(0, max(lw - 2 * n, 1))
+            for i in range(n):
+                emit(min(x + 2 * i, lw - 1), y)
+        if oob and rng.random() < 0.3:
+            emit(rng.choice([-1, lw, lw + 1, 65536, -65536]), rng.randrange(lh))
+    return px[:maxlen]
+
+
+def f_long_streams(ids, rng, n, ifaces=("rec",), tag="long", maxlen=400, shapes=None):
+    out = []
+    shapes = shapes or [("tiny565_300x3", 300, 3), ("tiny565_40x36", 40, 36), ("tiny565_2000x1", 2000, 1),
+                        ("st7789", 240, 320), ("tiny565_7x5", 7, 5)]
+    for i in range(n):
+        model, W, H = rng.choice(shapes)
+        rot, mir = rng.choice(ORIENTS)
+        if W * H > 100000:
+            w, h, ox, oy = W, H, 0, 0
+            if rng.random() < 0.5:
+                w = rng.randrange(60, W + 1); h = rng.randrange(60, H + 1)
+                ox = rng.randrange(0, W - w + 1); oy = rng.randrange(0, H - h + 1)
+        else:
+            w = rng.randrange(max(1, W // 2), W + 1); h = rng.randrange(max(1, H // 2), H + 1)
+            ox = rng.randrange(0, W - w + 1); oy = rng.randrange(0, H - h + 1)
+        lw, lh = lsize(w, h, rot)
+        iface = rng.choice(ifaces)
+        c = cfg(model, w, h, ox, oy, rot, mir, iface=iface, buf=rng.choice([2, 3, 64, 100, 101, 512]))
+        calls = [INIT]
+        for _ in range(rng.randrange(1, 4)):
+            calls.append({"name": "draw_iter", "px": long_stream(rng, lw, lh, maxlen=rng.choice([20, 120, maxlen]))})
+        out.append(scn(ids, c, calls, tag=tag))
+    return out
+
+
+def measure_rowcap(ids):
+    """one long left-to-right run: the length of the first burst is the driver's row capacity (C20)"""
+    px = [[x, 0, (x + 1) % 65536] for x in range(1000)]
+    return scn(ids, cfg("tiny565_2000x1", 2000, 1, 0, 0, 0, False, iface="rec"), [INIT, {"name": "draw_iter", "px": px}],
+               tag="measure_rowcap")
+
+
+# ------------------------------------------------------------------------- orientation changes (C10)
+
+def f_reorient(ids, rng, models, ifaces=("rec",), seq_len=3, per_cfg=1, tag="reorient", sample=1.0):
+    out = []
+    for (model, W, H, wins) in models:
+        for (w, h, ox, oy) in wins:
+            for (rot, mir) in ORIENTS:
+                for iface in ifaces:
+                    if sample < 1.0 and rng.random() > sample:
+                        continue
+                    for _ in range(per_cfg):
+                        c = cfg(model, w, h, ox, oy, rot, mir, iface=iface, buf=rng.choice([2, 4, 64]),
+                                bgr=rng.random() < 0.5, refv=rng.randrange(2), refh=rng.randrange(2), inv=rng.random() < 0.3)
+                        calls = [INIT]
+                        col = 10
+                        for _ in range(rng.randrange(1, seq_len + 1)):
+                            r2, m2 = rng.choice(ORIENTS)
+                            calls.append({"name": "set_orientation", "rot": r2, "mir": m2})
+                            lw, lh = lsize(w, h, r2)
+                            # a pixel at every corner, a clipped fill, a stream, a clear
+                            for (x, y) in {(0, 0), (lw - 1, 0), (0, lh - 1), (lw - 1, lh - 1)}:
+                                calls.append({"name": "set_pixel", "x": x, "y": y, "c": col}); col += 1
+                            calls.append({"name": "fill_solid", "rect": [lw - 1, lh - 1, 3, 3], "c": col}); col += 1
+                            calls.append({"name": "fill_contiguous", "rect": [-1, 0, lw + 2, lh], "colors": {"start": col, "len": -1}}); col += 50
+                            calls.append({"name": "draw_iter", "px": [[x, lh - 1, col + x] for x in range(lw)] + [[lw, 0, 5], [0, lh, 6]]}); col += 20
+                            if rng.random() < 0.3:
+                                calls.append({"name": "clear", "c": col}); col += 1
+                        out.append(scn(ids, c, calls, tag=tag))
+    return out
+
+
+def f_contig_tiny(ids, rng, sample=1.0, ifaces=("rec",), sizes=((2, 3), (3, 2), (4, 3), (1, 1), (3, 3))):
+    """every rectangle with corner in -2..lw+1 and size 0..lw+2 on small displays, stream lengths around the area"""
+    out = []
+    for (W, H) in sizes:
+        model = "tiny565_%dx%d" % (W, H)
+        for (w, h, ox, oy) in windows(W, H):
+            for (rot, mir) in ORIENTS:
+                if sample < 1.0 and rng.random() > sample:
+                    continue
+                lw, lh = lsize(w, h, rot)
+                rects = list(all_rects(lw, lh, lo=-2, extra=1))
+                rng.shuffle(rects)
+                iface = rng.choice(ifaces)
+                c = cfg(model, w, h, ox, oy, rot, mir, iface=iface, buf=rng.choice([2, 3, 64]))
+                calls = [INIT, {"name": "clear", "c": 3}]
+                col = 50
+                for r in rects[:14]:
+                    area = r[2] * r[3]
+                    for ln in rng.sample([0, 1, max(area - 1, 0), area, area + 3, -1], 2):
+                        calls.append({"name": "fill_contiguous", "rect": r, "colors": {"start": col, "len": ln}})
+                        col += 64
+                out.append(scn(ids, c, calls, tag="contig"))
+    return out
